@@ -1,10 +1,960 @@
 //! Component `chain`: protocol runner (real code), case generator, implementation-level oracles.
-//! (stub; owned by the component's author)
+//!
+//! The coder type `ChainCoder<W, S, Vec<W>, Vec<W>, P>` depends on the precision `P`, which
+//! changes during a history (`change_precision`).  Between two operations the coder is therefore
+//! parked in the type-erased form [`Dyn`] (its three fields, via the `constriction_verif`
+//! hooks `verif_into_parts` / `verif_from_parts`); every operation itself runs on the real
+//! typed coder.
 #![allow(unused)]
+#![allow(unreachable_patterns)]
+use constriction::stream::chain::{
+    BackendError, BackendPosition, ChainCoder, ChainCoderHeads, ChangePrecisionError,
+    DecoderFrontendError, EncoderFrontendError,
+};
+use constriction::stream::{Code, Decode, Encode, TryCodingError};
+use constriction::{BitArray, CoderError, Pos, Seek};
+use num_traits::AsPrimitive;
+
+use crate::rawmodel::{RawEnc, TableModel};
 use crate::util::*;
 
-pub fn run(_segs: &[Vec<&str>]) -> String {
-    "bad-op".into()
+type Coder<W, S, const P: usize> = ChainCoder<W, S, Vec<W>, Vec<W>, P>;
+
+/// a chain coder between two operations
+#[derive(Clone, Debug, PartialEq, Eq)]
+pub struct Dyn<W, S> {
+    pub comp: Vec<W>,
+    pub rems: Vec<W>,
+    pub hc: W,
+    pub hr: S,
+    pub p: u32,
+}
+
+impl<W: BitArray + Into<S>, S: BitArray + AsPrimitive<W>> Dyn<W, S> {
+    fn take<const P: usize>(&mut self) -> Coder<W, S, P> {
+        assert_eq!(self.p as usize, P);
+        let heads = ChainCoderHeads::<W, S, P>::verif_from_raw(self.hc, self.hr)
+            .expect("harness: zero compressed head");
+        ChainCoder::verif_from_parts(
+            std::mem::take(&mut self.comp),
+            std::mem::take(&mut self.rems),
+            heads,
+        )
+    }
+    fn peek<const P: usize>(&self) -> Coder<W, S, P> {
+        self.clone().take::<P>()
+    }
+    fn put<const P: usize>(&mut self, c: Coder<W, S, P>) {
+        let (comp, rems, heads) = c.verif_into_parts();
+        let (hc, hr) = heads.verif_raw();
+        *self = Dyn { comp, rems, hc, hr, p: P as u32 };
+    }
+    fn of<const P: usize>(c: Coder<W, S, P>) -> Self {
+        let (comp, rems, heads) = c.verif_into_parts();
+        let (hc, hr) = heads.verif_raw();
+        Dyn { comp, rems, hc, hr, p: P as u32 }
+    }
+    fn show(&self) -> String {
+        format!(
+            "{} {} {} {}",
+            show_list(self.comp.iter().map(|&w| to_u128(w))),
+            show_list(self.rems.iter().map(|&w| to_u128(w))),
+            hex(to_u128(self.hc)),
+            hex(to_u128(self.hr))
+        )
+    }
+}
+
+fn words<W: BitArray>(l: &[u128]) -> Vec<W> {
+    l.iter().map(|&w| from_u128(w)).collect()
+}
+fn unwords<W: BitArray>(l: &[W]) -> Vec<u128> {
+    l.iter().map(|&w| to_u128(w)).collect()
+}
+
+// ---------------------------------------------------------------------------------------
+// typed implementations of the operations
+
+fn enc_result<E>(r: Result<(), CoderError<EncoderFrontendError, E>>) -> String {
+    match r {
+        Ok(()) => "ok".into(),
+        Err(CoderError::Frontend(EncoderFrontendError::ImpossibleSymbol)) => "impossible".into(),
+        Err(CoderError::Frontend(EncoderFrontendError::OutOfRemainders)) => "out_of_remainders".into(),
+        Err(CoderError::Backend(_)) => "backend".into(),
+    }
+}
+
+fn enc_impl<W, S, Pr, const P: usize>(d: &mut Dyn<W, S>, cp: Option<(u128, u128)>) -> String
+where
+    W: BitArray + Into<S> + AsPrimitive<Pr>,
+    S: BitArray + AsPrimitive<W>,
+    Pr: BitArray + Into<W>,
+{
+    let m = RawEnc::<Pr, P> { cp: cp.map(|(c, p)| (from_u128(c), from_u128(p))) };
+    let mut c = d.take::<P>();
+    let r = enc_result(c.encode_symbol(0usize, m));
+    d.put(c);
+    r
+}
+
+fn enc_sym_impl<W, S, Pr, const P: usize>(d: &mut Dyn<W, S>, cdf: &[u128], s: usize) -> String
+where
+    W: BitArray + Into<S> + AsPrimitive<Pr>,
+    S: BitArray + AsPrimitive<W>,
+    Pr: BitArray + Into<W>,
+{
+    let m = TableModel::<Pr, P>::new(cdf.to_vec());
+    let mut c = d.take::<P>();
+    let r = enc_result(c.encode_symbol(s, &m));
+    d.put(c);
+    r
+}
+
+fn dec_impl<W, S, Pr, const P: usize>(d: &mut Dyn<W, S>, cdf: &[u128]) -> String
+where
+    W: BitArray + Into<S> + AsPrimitive<Pr>,
+    S: BitArray + AsPrimitive<W>,
+    Pr: BitArray + Into<W>,
+{
+    let m = TableModel::<Pr, P>::new(cdf.to_vec());
+    let mut c = d.take::<P>();
+    let r = match c.decode_symbol(&m) {
+        Ok(s) => hex(s as u128),
+        Err(CoderError::Frontend(DecoderFrontendError::OutOfCompressedData)) => "out_of_data".into(),
+        Err(CoderError::Backend(_)) => "backend".into(),
+    };
+    d.put(c);
+    r
+}
+
+fn enc_batch_impl<W, S, Pr, const P: usize>(
+    d: &mut Dyn<W, S>,
+    form: u32,
+    cdf: &[u128],
+    syms: &[usize],
+    err_at: Option<usize>,
+) -> String
+where
+    W: BitArray + Into<S> + AsPrimitive<Pr>,
+    S: BitArray + AsPrimitive<W>,
+    Pr: BitArray + Into<W>,
+{
+    let m = TableModel::<Pr, P>::new(cdf.to_vec());
+    let pairs = || syms.iter().map(|&s| (s, &m));
+    let tries = || {
+        syms.iter().enumerate().map(|(i, &s)| if Some(i) == err_at { Err(()) } else { Ok((s, &m)) })
+    };
+    let tr = |r: Result<(), TryCodingError<_, ()>>| match r {
+        Ok(()) => "ok".to_string(),
+        Err(TryCodingError::InvalidEntropyModel(())) => "modelerr".to_string(),
+        Err(TryCodingError::CodingError(e)) => enc_result(Err(e)),
+    };
+    let mut c = d.take::<P>();
+    let r = match form {
+        0 => enc_result(c.encode_symbols(pairs())),
+        1 => enc_result(c.encode_symbols_reverse(pairs())),
+        2 => tr(c.try_encode_symbols(tries())),
+        3 => tr(c.try_encode_symbols_reverse(tries())),
+        4 => enc_result(c.encode_iid_symbols(syms.iter().copied(), &m)),
+        5 => enc_result(c.encode_iid_symbols_reverse(syms.iter().copied(), &m)),
+        _ => "bad-op".into(),
+    };
+    d.put(c);
+    r
+}
+
+fn dec_batch_impl<W, S, Pr, const P: usize>(
+    d: &mut Dyn<W, S>,
+    form: u32,
+    cdf: &[u128],
+    n: usize,
+    err_at: Option<usize>,
+) -> String
+where
+    W: BitArray + Into<S> + AsPrimitive<Pr>,
+    S: BitArray + AsPrimitive<W>,
+    Pr: BitArray + Into<W>,
+{
+    let m = TableModel::<Pr, P>::new(cdf.to_vec());
+    let mut out: Vec<u128> = Vec::new();
+    let mut c = d.take::<P>();
+    let mut tail = String::new();
+    match form {
+        0 => {
+            for r in c.decode_symbols((0..n).map(|_| &m)) {
+                match r {
+                    Ok(s) => out.push(s as u128),
+                    Err(CoderError::Frontend(_)) => {
+                        tail = " out_of_data".into();
+                        break;
+                    }
+                    Err(_) => {
+                        tail = " backend".into();
+                        break;
+                    }
+                }
+            }
+        }
+        1 => {
+            let it = (0..n).map(|i| if Some(i) == err_at { Err(()) } else { Ok(&m) });
+            for r in c.try_decode_symbols(it) {
+                match r {
+                    Ok(s) => out.push(s as u128),
+                    Err(TryCodingError::InvalidEntropyModel(())) => {
+                        tail = " modelerr".into();
+                        break;
+                    }
+                    Err(TryCodingError::CodingError(CoderError::Frontend(_))) => {
+                        tail = " out_of_data".into();
+                        break;
+                    }
+                    Err(_) => {
+                        tail = " backend".into();
+                        break;
+                    }
+                }
+            }
+        }
+        2 => {
+            for r in c.decode_iid_symbols(n, &m) {
+                match r {
+                    Ok(s) => out.push(s as u128),
+                    Err(CoderError::Frontend(_)) => {
+                        tail = " out_of_data".into();
+                        break;
+                    }
+                    Err(_) => {
+                        tail = " backend".into();
+                        break;
+                    }
+                }
+            }
+        }
+        _ => return "bad-op".into(),
+    }
+    d.put(c);
+    format!("{}{}", show_list(out), tail)
+}
+
+/// operations that depend on the coder precision only
+pub enum POp {
+    Whole,
+    IntoRem,
+    IntoComp,
+    IntoBin,
+    Mex,
+    MFull,
+    Clone,
+    /// `seek((BackendPosition { compressed, remainders }, heads(hc, hr)))`
+    Seek(usize, usize, u128, u128),
+    /// `Pos::pos()`
+    Pos,
+}
+
+/// result of an exporter: `Ok((prefix, suffix))` or the canonical error string
+type Exported = Result<(Vec<u128>, Vec<u128>), String>;
+
+fn into_rem_impl<W, S, const P: usize>(d: &Dyn<W, S>) -> Exported
+where
+    W: BitArray + Into<S>,
+    S: BitArray + AsPrimitive<W>,
+{
+    match d.peek::<P>().into_remainders() {
+        Ok((pre, suf)) => Ok((unwords(&pre), unwords(&suf))),
+        Err(_) => Err("backend".into()),
+    }
+}
+fn into_comp_impl<W, S, const P: usize>(d: &Dyn<W, S>) -> Exported
+where
+    W: BitArray + Into<S>,
+    S: BitArray + AsPrimitive<W>,
+{
+    match d.peek::<P>().into_compressed() {
+        Ok((pre, suf)) => Ok((unwords(&pre), unwords(&suf))),
+        Err(CoderError::Frontend(_)) => Err("notwhole".into()),
+        Err(CoderError::Backend(_)) => Err("backend".into()),
+    }
+}
+fn into_bin_impl<W, S, const P: usize>(d: &Dyn<W, S>) -> Exported
+where
+    W: BitArray + Into<S>,
+    S: BitArray + AsPrimitive<W>,
+{
+    match d.peek::<P>().into_binary() {
+        Ok((pre, suf)) => Ok((unwords(&pre), unwords(&suf))),
+        Err(CoderError::Frontend(_)) => Err("notwhole".into()),
+        Err(CoderError::Backend(_)) => Err("backend".into()),
+    }
+}
+
+fn show_exported(e: Exported) -> String {
+    match e {
+        Ok((a, b)) => format!("{} {}", show_list(a), show_list(b)),
+        Err(s) => s,
+    }
+}
+
+fn pop_impl<W, S, const P: usize>(d: &mut Dyn<W, S>, op: &POp) -> String
+where
+    W: BitArray + Into<S>,
+    S: BitArray + AsPrimitive<W>,
+{
+    match op {
+        POp::Whole => format!("{}", d.peek::<P>().is_whole()),
+        POp::IntoRem => show_exported(into_rem_impl::<W, S, P>(d)),
+        POp::IntoComp => show_exported(into_comp_impl::<W, S, P>(d)),
+        POp::IntoBin => show_exported(into_bin_impl::<W, S, P>(d)),
+        POp::Mex => format!("{}", Decode::<P>::maybe_exhausted(&d.peek::<P>())),
+        POp::MFull => format!("{}", Encode::<P>::maybe_full(&d.peek::<P>())),
+        POp::Clone => {
+            let c = d.take::<P>();
+            let c2 = c.clone();
+            drop(c);
+            d.put(c2);
+            "ok".into()
+        }
+        POp::Pos => {
+            let c = d.peek::<P>();
+            let (bp, heads) = c.pos();
+            let (hc, hr) = heads.verif_raw();
+            format!(
+                "{} {} {} {}",
+                hex(bp.compressed as u128),
+                hex(bp.remainders as u128),
+                hex(to_u128(hc)),
+                hex(to_u128(hr))
+            )
+        }
+        POp::Seek(pc, pr, hc, hr) => {
+            let heads = match ChainCoderHeads::<W, S, P>::verif_from_raw(from_u128(*hc), from_u128(*hr)) {
+                Some(h) => h,
+                None => return "unsupported".into(),
+            };
+            let mut c = d.take::<P>();
+            let r = c.seek((BackendPosition { compressed: *pc, remainders: *pr }, heads));
+            d.put(c);
+            match r {
+                Ok(()) => "ok".into(),
+                Err(()) => "err".into(),
+            }
+        }
+    }
+}
+
+/// 0 = from_binary, 1 = from_compressed, 2 = from_remainders
+fn ctor_impl<W, S, const P: usize>(kind: u32, data: Vec<W>) -> Result<Dyn<W, S>, ()>
+where
+    W: BitArray + Into<S>,
+    S: BitArray + AsPrimitive<W>,
+{
+    let r = match kind {
+        0 => Coder::<W, S, P>::from_binary(data).map_err(|_| ()),
+        1 => Coder::<W, S, P>::from_compressed(data).map_err(|_| ()),
+        _ => Coder::<W, S, P>::from_remainders(data).map_err(|_| ()),
+    };
+    r.map(Dyn::of)
+}
+
+fn cp_result<W, S, const Q: usize>(
+    d: &mut Dyn<W, S>,
+    r: Result<Coder<W, S, Q>, ChangePrecisionError<W, Vec<W>>>,
+) -> String
+where
+    W: BitArray + Into<S>,
+    S: BitArray + AsPrimitive<W>,
+{
+    match r {
+        Ok(c) => {
+            d.put(c);
+            "ok".into()
+        }
+        Err(ChangePrecisionError::Decrease(CoderError::Frontend(EncoderFrontendError::OutOfRemainders))) => {
+            "out_of_remainders".into()
+        }
+        Err(ChangePrecisionError::Decrease(CoderError::Frontend(EncoderFrontendError::ImpossibleSymbol))) => {
+            "impossible".into()
+        }
+        Err(_) => "backend".into(),
+    }
+}
+
+/// `change_precision::<Q>()`; the method consumes the coder even when it fails, so the harness
+/// runs it on a clone and keeps the old coder on failure
+fn cp_impl<W, S, const P: usize, const Q: usize>(d: &mut Dyn<W, S>) -> String
+where
+    W: BitArray + Into<S>,
+    S: BitArray + AsPrimitive<W>,
+{
+    let r = d.peek::<P>().change_precision::<Q>();
+    cp_result(d, r)
+}
+fn incp_impl<W, S, const P: usize, const Q: usize>(d: &mut Dyn<W, S>) -> String
+where
+    W: BitArray + Into<S>,
+    S: BitArray + AsPrimitive<W>,
+{
+    match d.peek::<P>().increase_precision::<Q>() {
+        Ok(c) => {
+            d.put(c);
+            "ok".into()
+        }
+        Err(_) => "backend".into(),
+    }
+}
+fn decp_impl<W, S, const P: usize, const Q: usize>(d: &mut Dyn<W, S>) -> String
+where
+    W: BitArray + Into<S>,
+    S: BitArray + AsPrimitive<W>,
+{
+    match d.peek::<P>().decrease_precision::<Q>() {
+        Ok(c) => {
+            d.put(c);
+            "ok".into()
+        }
+        Err(CoderError::Frontend(EncoderFrontendError::OutOfRemainders)) => "out_of_remainders".into(),
+        Err(CoderError::Frontend(EncoderFrontendError::ImpossibleSymbol)) => "impossible".into(),
+        Err(_) => "backend".into(),
+    }
+}
+
+// ---------------------------------------------------------------------------------------
+// runtime → const-generic dispatch
+
+pub trait ChainCombo {
+    type W: BitArray + Into<Self::S>;
+    type S: BitArray + AsPrimitive<Self::W>;
+    const WBITS: u32;
+    const SBITS: u32;
+    /// `None` = this (B, P) is not compiled in
+    fn enc(d: &mut Dyn<Self::W, Self::S>, b: u32, cp: Option<(u128, u128)>) -> Option<String>;
+    fn dec(d: &mut Dyn<Self::W, Self::S>, b: u32, cdf: &[u128]) -> Option<String>;
+    fn enc_sym(d: &mut Dyn<Self::W, Self::S>, b: u32, cdf: &[u128], s: usize) -> Option<String>;
+    fn enc_batch(d: &mut Dyn<Self::W, Self::S>, b: u32, form: u32, cdf: &[u128], syms: &[usize], err_at: Option<usize>) -> Option<String>;
+    fn dec_batch(d: &mut Dyn<Self::W, Self::S>, b: u32, form: u32, cdf: &[u128], n: usize, err_at: Option<usize>) -> Option<String>;
+}
+
+macro_rules! impl_chain_combo {
+    ($name:ident, $W:ty, $S:ty; $($B:ty => [$($P:literal),*]);*) => {
+        impl ChainCombo for $name {
+            type W = $W;
+            type S = $S;
+            const WBITS: u32 = <$W>::BITS;
+            const SBITS: u32 = <$S>::BITS;
+            fn enc(d: &mut Dyn<$W, $S>, b: u32, cp: Option<(u128, u128)>) -> Option<String> {
+                match (b, d.p) {
+                    $($( (bb, $P) if bb == <$B>::BITS => Some(enc_impl::<$W, $S, $B, $P>(d, cp)), )*)*
+                    _ => None,
+                }
+            }
+            fn dec(d: &mut Dyn<$W, $S>, b: u32, cdf: &[u128]) -> Option<String> {
+                match (b, d.p) {
+                    $($( (bb, $P) if bb == <$B>::BITS => Some(dec_impl::<$W, $S, $B, $P>(d, cdf)), )*)*
+                    _ => None,
+                }
+            }
+            fn enc_sym(d: &mut Dyn<$W, $S>, b: u32, cdf: &[u128], s: usize) -> Option<String> {
+                match (b, d.p) {
+                    $($( (bb, $P) if bb == <$B>::BITS => Some(enc_sym_impl::<$W, $S, $B, $P>(d, cdf, s)), )*)*
+                    _ => None,
+                }
+            }
+            fn enc_batch(d: &mut Dyn<$W, $S>, b: u32, form: u32, cdf: &[u128], syms: &[usize], err_at: Option<usize>) -> Option<String> {
+                match (b, d.p) {
+                    $($( (bb, $P) if bb == <$B>::BITS => Some(enc_batch_impl::<$W, $S, $B, $P>(d, form, cdf, syms, err_at)), )*)*
+                    _ => None,
+                }
+            }
+            fn dec_batch(d: &mut Dyn<$W, $S>, b: u32, form: u32, cdf: &[u128], n: usize, err_at: Option<usize>) -> Option<String> {
+                match (b, d.p) {
+                    $($( (bb, $P) if bb == <$B>::BITS => Some(dec_batch_impl::<$W, $S, $B, $P>(d, form, cdf, n, err_at)), )*)*
+                    _ => None,
+                }
+            }
+        }
+    };
+}
+crate::for_each_combo!(impl_chain_combo);
+
+/// operations dispatched on the coder precision alone, and on (old, new) precision pairs
+pub trait ChainPrec: ChainCombo {
+    fn precisions() -> &'static [u32];
+    fn pop(d: &mut Dyn<Self::W, Self::S>, op: &POp) -> Option<String>;
+    fn ctor(kind: u32, p: u32, data: Vec<Self::W>) -> Option<Result<Dyn<Self::W, Self::S>, ()>>;
+    fn into_rem(d: &Dyn<Self::W, Self::S>) -> Option<Exported>;
+    fn into_comp(d: &Dyn<Self::W, Self::S>) -> Option<Exported>;
+    fn into_bin(d: &Dyn<Self::W, Self::S>) -> Option<Exported>;
+    /// kind 0 = change_precision, 1 = increase_precision, 2 = decrease_precision
+    fn cp(d: &mut Dyn<Self::W, Self::S>, kind: u32, q: u32) -> Option<String>;
+}
+
+macro_rules! cp_all {
+    ($d:ident, $q:ident, $C:ty; [$($P:literal),*]; $Qs:tt) => {
+        $( cp_all!(@row $d, $q, $C; $P; $Qs); )*
+    };
+    (@row $d:ident, $q:ident, $C:ty; $P:literal; [$($Q:literal),*]) => {
+        $( if $d.p == $P && $q == $Q {
+            return Some(cp_impl::<<$C as ChainCombo>::W, <$C as ChainCombo>::S, $P, $Q>($d));
+        } )*
+    };
+}
+
+/// `increase_precision::<Q>` needs `Q >= P` and `decrease_precision::<Q>` needs `Q <= P` at
+/// compile time: walk the *sorted* precision list
+macro_rules! cp_ord {
+    ($d:ident, $kind:ident, $q:ident, $C:ty; ) => {};
+    ($d:ident, $kind:ident, $q:ident, $C:ty; $H:literal $(, $T:literal)*) => {
+        if $kind == 1 && $d.p == $H && $q == $H {
+            return Some(incp_impl::<<$C as ChainCombo>::W, <$C as ChainCombo>::S, $H, $H>($d));
+        }
+        if $kind == 2 && $d.p == $H && $q == $H {
+            return Some(decp_impl::<<$C as ChainCombo>::W, <$C as ChainCombo>::S, $H, $H>($d));
+        }
+        $(
+            if $kind == 1 && $d.p == $H && $q == $T {
+                return Some(incp_impl::<<$C as ChainCombo>::W, <$C as ChainCombo>::S, $H, $T>($d));
+            }
+            if $kind == 2 && $d.p == $T && $q == $H {
+                return Some(decp_impl::<<$C as ChainCombo>::W, <$C as ChainCombo>::S, $T, $H>($d));
+            }
+        )*
+        cp_ord!($d, $kind, $q, $C; $($T),*);
+    };
+}
+
+macro_rules! impl_chain_prec {
+    ($name:ident; $($P:literal),*) => {
+        impl ChainPrec for $name {
+            fn precisions() -> &'static [u32] { &[$($P),*] }
+            fn pop(d: &mut Dyn<Self::W, Self::S>, op: &POp) -> Option<String> {
+                match d.p {
+                    $( $P => Some(pop_impl::<Self::W, Self::S, $P>(d, op)), )*
+                    _ => None,
+                }
+            }
+            fn ctor(kind: u32, p: u32, data: Vec<Self::W>) -> Option<Result<Dyn<Self::W, Self::S>, ()>> {
+                match p {
+                    $( $P => Some(ctor_impl::<Self::W, Self::S, $P>(kind, data)), )*
+                    _ => None,
+                }
+            }
+            fn into_rem(d: &Dyn<Self::W, Self::S>) -> Option<Exported> {
+                match d.p { $( $P => Some(into_rem_impl::<Self::W, Self::S, $P>(d)), )* _ => None }
+            }
+            fn into_comp(d: &Dyn<Self::W, Self::S>) -> Option<Exported> {
+                match d.p { $( $P => Some(into_comp_impl::<Self::W, Self::S, $P>(d)), )* _ => None }
+            }
+            fn into_bin(d: &Dyn<Self::W, Self::S>) -> Option<Exported> {
+                match d.p { $( $P => Some(into_bin_impl::<Self::W, Self::S, $P>(d)), )* _ => None }
+            }
+            fn cp(d: &mut Dyn<Self::W, Self::S>, kind: u32, q: u32) -> Option<String> {
+                if kind == 0 {
+                    cp_all!(d, q, $name; [$($P),*]; [$($P),*]);
+                } else {
+                    cp_ord!(d, kind, q, $name; $($P),*);
+                }
+                None
+            }
+        }
+    };
+}
+// sorted union of the precisions that `for_each_combo!` lists for each (Word, State)
+impl_chain_prec!(C8x16; 1, 2, 3, 4, 5, 7, 8);
+impl_chain_prec!(C8x32; 1, 2, 3, 4, 5, 7, 8);
+impl_chain_prec!(C8x64; 1, 3, 8);
+impl_chain_prec!(C16x32; 1, 2, 4, 7, 8, 12, 15, 16);
+impl_chain_prec!(C16x64; 1, 8, 12, 16);
+impl_chain_prec!(C32x64; 1, 8, 12, 16, 24, 31, 32);
+impl_chain_prec!(C32x128; 1, 16, 24, 32);
+impl_chain_prec!(C64x128; 1, 12, 24, 32);
+
+// ---------------------------------------------------------------------------------------
+// protocol runner
+
+fn opt_idx(s: &str) -> Option<Option<usize>> {
+    if s == "-" {
+        Some(None)
+    } else {
+        Some(Some(parse_hex(s)? as usize))
+    }
+}
+
+fn run_hist<C: ChainPrec>(segs: &[Vec<&str>], p0: u32) -> String {
+    let init = &segs[1];
+    let ctor = |kind: u32, ws: &str| -> Option<Option<Result<Dyn<C::W, C::S>, ()>>> {
+        let l = parse_list(ws)?;
+        Some(C::ctor(kind, p0, words::<C::W>(&l)))
+    };
+    let made = match init.as_slice() {
+        ["binary", ws] => ctor(0, ws),
+        ["compressed", ws] => ctor(1, ws),
+        ["remainders", ws] => ctor(2, ws),
+        ["raw", comp, rems, hc, hr] => (|| {
+            let comp = parse_list(comp)?;
+            let rems = parse_list(rems)?;
+            let hc = parse_hex(hc)?;
+            let hr = parse_hex(hr)?;
+            if !C::precisions().contains(&p0) {
+                return Some(None);
+            }
+            if hc == 0 {
+                return Some(Some(Err(())));
+            }
+            Some(Some(Ok(Dyn {
+                comp: words::<C::W>(&comp),
+                rems: words::<C::W>(&rems),
+                hc: from_u128(hc),
+                hr: from_u128(hr),
+                p: p0,
+            })))
+        })(),
+        _ => None,
+    };
+    let mut d = match made {
+        None => return "bad-op".into(),
+        Some(None) => return "unsupported".into(),
+        Some(Some(Err(()))) => return "err".into(),
+        Some(Some(Ok(d))) => d,
+    };
+    let mut stash: Vec<u128> = Vec::new();
+    let mut snaps: Vec<(u32, usize, usize, u128, u128)> = Vec::new();
+    let mut outs: Vec<String> = vec!["ok".into()];
+    for seg in &segs[2..] {
+        let r = guarded(|| -> Option<String> {
+            let uns = || "unsupported".to_string();
+            Some(match seg.as_slice() {
+                ["dec", b, cdf] => C::dec(&mut d, parse_hex(b)? as u32, &parse_list(cdf)?).unwrap_or_else(uns),
+                ["enc", b, cum, pr] => {
+                    C::enc(&mut d, parse_hex(b)? as u32, Some((parse_hex(cum)?, parse_hex(pr)?))).unwrap_or_else(uns)
+                }
+                ["encnone", b] => C::enc(&mut d, parse_hex(b)? as u32, None).unwrap_or_else(uns),
+                ["encsym", b, cdf, s] => {
+                    C::enc_sym(&mut d, parse_hex(b)? as u32, &parse_list(cdf)?, parse_hex(s)? as usize).unwrap_or_else(uns)
+                }
+                ["encs", b, form, cdf, syms, err_at] => {
+                    let syms: Vec<usize> = parse_list(syms)?.iter().map(|&s| s as usize).collect();
+                    let form = parse_hex(form)? as u32;
+                    if form > 5 {
+                        return None;
+                    }
+                    C::enc_batch(&mut d, parse_hex(b)? as u32, form, &parse_list(cdf)?, &syms, opt_idx(err_at)?)
+                        .unwrap_or_else(uns)
+                }
+                ["decs", b, form, cdf, n, err_at] => {
+                    let form = parse_hex(form)? as u32;
+                    if form > 2 {
+                        return None;
+                    }
+                    C::dec_batch(&mut d, parse_hex(b)? as u32, form, &parse_list(cdf)?, parse_hex(n)? as usize, opt_idx(err_at)?)
+                        .unwrap_or_else(uns)
+                }
+                [op @ ("cp" | "incp" | "decp"), q] => {
+                    let q = parse_hex(q)? as u32;
+                    let kind = match *op {
+                        "cp" => 0,
+                        "incp" => 1,
+                        _ => 2,
+                    };
+                    let legal = q >= 1
+                        && q <= C::WBITS
+                        && C::WBITS + q <= C::SBITS
+                        && (kind != 1 || q >= d.p)
+                        && (kind != 2 || q <= d.p);
+                    if !legal {
+                        uns()
+                    } else {
+                        C::cp(&mut d, kind, q).unwrap_or_else(uns)
+                    }
+                }
+                ["reimport", k] => {
+                    let k = parse_hex(k)?;
+                    if k != 1 && k != 2 {
+                        return None;
+                    }
+                    match C::into_rem(&d)? {
+                        Err(e) => e,
+                        Ok((pre, suf)) => {
+                            let data: Vec<u128> = if k == 1 {
+                                suf.clone()
+                            } else {
+                                pre.iter().chain(suf.iter()).copied().collect()
+                            };
+                            match C::ctor(2, d.p, words::<C::W>(&data))? {
+                                Ok(nd) => {
+                                    d = nd;
+                                    stash = if k == 1 { pre } else { Vec::new() };
+                                    "ok".into()
+                                }
+                                Err(()) => "err".into(),
+                            }
+                        }
+                    }
+                }
+                ["final", which] => {
+                    let e = match *which {
+                        "comp" => C::into_comp(&d)?,
+                        "bin" => C::into_bin(&d)?,
+                        _ => return None,
+                    };
+                    match e {
+                        Ok((pre, suf)) => {
+                            show_list(stash.iter().chain(pre.iter()).chain(suf.iter()).copied())
+                        }
+                        Err(s) => s,
+                    }
+                }
+                ["seekto", i] => {
+                    let i = parse_hex(i)? as usize;
+                    match snaps.get(i) {
+                        None => uns(),
+                        Some(&(p, pc, pr, hc, hr)) => {
+                            if p != d.p {
+                                uns()
+                            } else {
+                                C::pop(&mut d, &POp::Seek(pc, pr, hc, hr))?
+                            }
+                        }
+                    }
+                }
+                ["whole"] => C::pop(&mut d, &POp::Whole)?,
+                ["raw"] => format!("{} {}", d.show(), hex(d.p as u128)),
+                ["intorem"] => C::pop(&mut d, &POp::IntoRem)?,
+                ["intocomp"] => C::pop(&mut d, &POp::IntoComp)?,
+                ["intobin"] => C::pop(&mut d, &POp::IntoBin)?,
+                ["mex"] => C::pop(&mut d, &POp::Mex)?,
+                ["mfull"] => C::pop(&mut d, &POp::MFull)?,
+                ["clone"] => C::pop(&mut d, &POp::Clone)?,
+                ["snap"] => {
+                    let s = C::pop(&mut d, &POp::Pos)?;
+                    let v: Vec<u128> = s.split(' ').map(|t| parse_hex(t).unwrap()).collect();
+                    snaps.push((d.p, v[0] as usize, v[1] as usize, v[2], v[3]));
+                    s
+                }
+                _ => return None,
+            })
+        });
+        match r {
+            Ok(Some(s)) => outs.push(s),
+            Ok(None) => {
+                outs.push("bad-op".into());
+                break;
+            }
+            Err(class) => {
+                outs.push(class.into());
+                break;
+            }
+        }
+    }
+    outs.join(" | ")
+}
+
+// ---------------------------------------------------------------------------------------
+// complete single-step sweeps (only `(u8, u16)`, through the raw-heads hook)
+
+fn fold_list(mut h: u64, l: &[u128]) -> u64 {
+    h = digest_step(h, l.len() as u128);
+    for &v in l {
+        h = digest_step(h, v);
+    }
+    h
+}
+
+fn fold_dyn<W: BitArray, S: BitArray>(mut h: u64, d: &Dyn<W, S>) -> u64 {
+    h = digest_step(h, to_u128(d.hc));
+    h = digest_step(h, to_u128(d.hr));
+    h = fold_list(h, &unwords(&d.comp));
+    fold_list(h, &unwords(&d.rems))
+}
+
+fn panic_code(class: &str) -> u128 {
+    match class {
+        "panic:overflow" => 4,
+        "panic:shift" => 5,
+        _ => 6,
+    }
+}
+
+/// folds the outcome of one guarded step that returns the protocol string
+fn fold_step<W: BitArray + Into<S>, S: BitArray + AsPrimitive<W>>(
+    h: u64,
+    mut d: Dyn<W, S>,
+    f: impl FnOnce(&mut Dyn<W, S>) -> String,
+) -> u64 {
+    match guarded(|| f(&mut d)) {
+        Err(class) => digest_step(h, panic_code(class)),
+        Ok(s) => match s.as_str() {
+            "out_of_data" => digest_step(h, 1),
+            "out_of_remainders" => digest_step(h, 2),
+            "impossible" => digest_step(h, 3),
+            "ok" => fold_dyn(digest_step(h, 0), &d),
+            sym => match parse_hex(sym) {
+                Some(v) => fold_dyn(digest_step(digest_step(h, 0), v), &d),
+                None => digest_step(h, 99),
+            },
+        },
+    }
+}
+
+fn fold_exported(h: u64, e: Result<Exported, &'static str>) -> u64 {
+    match e {
+        Err(class) => digest_step(h, panic_code(class)),
+        Ok(Ok((a, b))) => fold_list(fold_list(digest_step(h, 0), &a), &b),
+        Ok(Err(s)) if s == "notwhole" => digest_step(h, 8),
+        Ok(Err(_)) => digest_step(h, 99),
+    }
+}
+
+fn sweep(p: u32, b: u32, kind: &str, lo: u128, hi: u128) -> Option<(u64, u64)> {
+    type C = C8x16;
+    const W: u32 = 8;
+    const S: u32 = 16;
+    let top: u128 = 1 << p;
+    let hr0: u128 = 1 << (S - W - p);
+    let mk = |comp: &[u128], rems: &[u128], hc: u128, hr: u128| Dyn::<u8, u16> {
+        comp: words(comp),
+        rems: words(rems),
+        hc: hc as u8,
+        hr: hr as u16,
+        p,
+    };
+    let probe: [u128; 4] = [0, 1, 1 << (W - 1), (1 << W) - 1];
+    let mut n = 0u64;
+    let mut h = DIGEST_INIT;
+    if !C::precisions().contains(&p) {
+        return None;
+    }
+    match kind {
+        "decbits" => {
+            let cdf = [0, top / 2, top];
+            for hc in lo..=hi {
+                for w in 0..(1u128 << W) {
+                    h = fold_step(h, mk(&[w], &[], hc, hr0), |d| C::dec(d, b, &cdf).unwrap());
+                    n += 1;
+                }
+            }
+        }
+        "decbits0" => {
+            let cdf = [0, top / 2, top];
+            for hc in lo..=hi {
+                h = fold_step(h, mk(&[], &[], hc, hr0), |d| C::dec(d, b, &cdf).unwrap());
+                n += 1;
+            }
+        }
+        "decrem" => {
+            for hr in lo..=hi {
+                for pr in 1..top {
+                    for r in 0..pr {
+                        h = fold_step(h, mk(&[r], &[], 1, hr), |d| C::dec(d, b, &[0, pr, top]).unwrap());
+                        h = fold_step(h, mk(&[top - pr + r], &[], 1, hr), |d| C::dec(d, b, &[0, top - pr, top]).unwrap());
+                        n += 2;
+                    }
+                }
+            }
+        }
+        "encbits" => {
+            for hc in lo..=hi {
+                for q in 0..top {
+                    h = fold_step(h, mk(&[], &[], hc, hr0), |d| C::enc(d, b, Some((q, 1))).unwrap());
+                    n += 1;
+                }
+            }
+        }
+        "encrem" => {
+            for hr in lo..=hi {
+                for pr in 1..top {
+                    h = fold_step(h, mk(&[], &[], 1, hr), |d| C::enc(d, b, Some((0, pr))).unwrap());
+                    h = fold_step(h, mk(&[], &[], 1, hr), |d| C::enc(d, b, Some((top - pr, pr))).unwrap());
+                    n += 2;
+                    for &w in &probe {
+                        h = fold_step(h, mk(&[], &[w], 1, hr), |d| C::enc(d, b, Some((0, pr))).unwrap());
+                        n += 1;
+                    }
+                }
+            }
+        }
+        "cp" => {
+            // `b` is the new precision
+            if !(b >= 1 && b <= W && W + b <= S) {
+                return None;
+            }
+            for hr in lo..=hi {
+                h = fold_step(h, mk(&[], &[], 1, hr), |d| C::cp(d, 0, b).unwrap());
+                n += 1;
+                for &w in &probe {
+                    h = fold_step(h, mk(&[], &[w], 1, hr), |d| C::cp(d, 0, b).unwrap());
+                    n += 1;
+                }
+            }
+        }
+        "export" => {
+            for hr in lo..=hi {
+                for hc in [1u128, 2, (1 << W) - 1] {
+                    let d = mk(&[5], &[7], hc, hr);
+                    h = fold_exported(h, guarded(|| C::into_rem(&d).unwrap()));
+                    h = fold_exported(h, guarded(|| C::into_comp(&d).unwrap()));
+                    h = fold_exported(h, guarded(|| C::into_bin(&d).unwrap()));
+                    n += 3;
+                }
+            }
+        }
+        "import" => {
+            for w1 in lo..=hi {
+                for w0 in 0..(1u128 << W) {
+                    for &w in &probe {
+                        // Rust `Vec` order: bottom first
+                        let src = [3, w, w0, w1];
+                        for kind in 0..3 {
+                            h = match C::ctor(kind, p, words::<u8>(&src)).unwrap() {
+                                Ok(d) => fold_dyn(digest_step(h, 0), &d),
+                                Err(()) => digest_step(h, 9),
+                            };
+                            n += 1;
+                        }
+                    }
+                }
+            }
+        }
+        _ => return None,
+    }
+    Some((n, h))
+}
+
+pub fn run(segs: &[Vec<&str>]) -> String {
+    let head = &segs[0];
+    if head.first() == Some(&"chainsweep") {
+        if head.len() != 8 || segs.len() != 1 {
+            return "bad-op".into();
+        }
+        let v: Option<Vec<u128>> = [1usize, 2, 3, 4, 6, 7].iter().map(|&i| parse_hex(head[i])).collect();
+        let v = match v {
+            Some(v) => v,
+            None => return "bad-op".into(),
+        };
+        if (v[0], v[1]) != (8, 16) {
+            return "unsupported".into();
+        }
+        return match sweep(v[2] as u32, v[3] as u32, head[5], v[4], v[5]) {
+            Some((n, h)) => format!("{} {:x}", n, h),
+            None => "bad-op".into(),
+        };
+    }
+    if head.len() != 4 || head[0] != "chain" || segs.len() < 2 {
+        return "bad-op".into();
+    }
+    let (w, s, p) = match (parse_hex(head[1]), parse_hex(head[2]), parse_hex(head[3])) {
+        (Some(w), Some(s), Some(p)) => (w, s, p as u32),
+        _ => return "bad-op".into(),
+    };
+    match (w, s) {
+        (8, 16) => run_hist::<C8x16>(segs, p),
+        (8, 32) => run_hist::<C8x32>(segs, p),
+        (8, 64) => run_hist::<C8x64>(segs, p),
+        (16, 32) => run_hist::<C16x32>(segs, p),
+        (16, 64) => run_hist::<C16x64>(segs, p),
+        (32, 64) => run_hist::<C32x64>(segs, p),
+        (32, 128) => run_hist::<C32x128>(segs, p),
+        (64, 128) => run_hist::<C64x128>(segs, p),
+        _ => "unsupported".into(),
+    }
 }
 
 pub fn gen(_rng: &mut Rng, _tier: &str, _out: &mut Vec<String>) {}
